@@ -365,6 +365,7 @@ class Kernel:
         self.fault_base = 0
         self.self_pid = 4242
         self.statvfs_map = {}
+        self.noexec = set()  # regular files without the x bit
         self.kills = []  # delivered signals (pid, sig)
         self.setcalls = []  # delivered setters
         self.sleeps = []
@@ -519,8 +520,19 @@ class Kernel:
         try:
             node = self.files[path]
         except KeyError:
+            if path == "/proc/stat":
+                return self.default_proc_stat()
             raise oserr(errno.ENOENT, path) from None
         return node
+
+    def default_proc_stat(self):
+        n = self.ncpus or 1
+        out = ["cpu  %d 0 %d %d 0 0 0 0 0 0" % (10 * n, 5 * n, 1000 * n)]
+        out += ["cpu%d 10 0 5 1000 0 0 0 0 0 0" % i for i in range(n)]
+        out += ["intr 1000 1 2", "ctxt 5000", "btime %d" % self.btime,
+                "processes 100", "procs_running 1", "procs_blocked 0",
+                "softirq 300 1 2"]
+        return ("\n".join(out) + "\n").encode()
 
     def listdir_node(self, path):
         path = self._norm(path)
@@ -878,6 +890,8 @@ class SimOS:
         try:
             self._stat_node(path, True)
         except OSError:
+            return False
+        if mode & REAL_OS.X_OK and k._norm(path) in k.noexec:
             return False
         return True
 
